@@ -352,6 +352,12 @@ func propC18scc(a *Analysis, r *Registry, b *B) {
 			pi = nil
 		}
 		pinnedShape = pinnedPop
+		// a pop that walks the stack itself downward must start at its top
+		if !pinnedPop && strings.HasPrefix(stackV.String(), "fv:") {
+			if qi, qn := recurrenceOrNil(fc, popI); qi != nil && qn.Equal(popI.Sub(S.Int(1))) {
+				r.Fail(rB, name+"/connect/pop/from-top", where, "the pop loop walks the stack downward but does not start at its top: it starts at "+clip(qi.String(), 80))
+			}
+		}
 		if pi == nil {
 			// the component is marked by another kind of loop (e.g. forward over stack[base:] after
 			// the root's position was searched): the clauses below are stated on the pop-from-the-top
